@@ -339,7 +339,25 @@ func cmdCheck(args []string) int {
 		rp := map[string]interface{}{"obligation": o.Name, "detail": o.Detail, "pos": o.Pos, "status": r.Status, "backend": r.Backend,
 			"smt_file": r.File, "solver_output": r.Output, "all_backends": r.All, "disagreement": r.Disagree}
 		confirmed := false
-		if r.Status == "sat" && r.Model != nil {
+		if (r.Status == "unknown" || r.Status == "timeout") && j.rep.fn != nil && !isCover {
+			// ground relaxation: candidate inputs only; they count only if they replay on the real code
+			gfile := strings.TrimSuffix(r.File, ".smt2") + ".ground.smt2"
+			writeFile(gfile, j.rep.ex.renderOpt(o, nil, true, false))
+			if gr := Solve(gfile, 5, false, false); gr.Status == "sat" && gr.ModelList != nil {
+				r.ModelList = gr.ModelList
+				rp["candidate_from"] = "ground relaxation (quantified facts dropped): " + gfile
+				r.Status = r.Status + "+candidate"
+			}
+		}
+		if r.ModelList != nil {
+			r.Model = map[string]string{}
+			for i, k := range o.ModelKeys {
+				if i < len(r.ModelList) {
+					r.Model[k] = r.ModelList[i]
+				}
+			}
+		}
+		if r.Model != nil {
 			rp["model"] = r.Model
 			confirmed = tryReplay(P, j.rep, o, r, rp, *repo)
 		}
